@@ -220,7 +220,8 @@ def run_check(prop, tier, seed, replay=None, jobs=None, quiet=False):
         # evidence/ describes runs against /repo only; a run against a scratch copy (VT_REPO: self-test mutants, seeded
         # changes) writes its evidence next to its other scratch output
         evdir = os.path.join(VERIF, 'evidence')
-        if os.path.realpath(os.environ.get('VT_REPO', '/repo')) != os.path.realpath('/repo'):
+        if os.path.realpath(os.environ.get('VT_REPO', '/repo')) != os.path.realpath('/repo') or \
+                os.environ.get('VT_EVIDENCE_SCRATCH'):        # (/repo with a seeded change applied: tools/seed_on_repo.py)
             evdir = os.path.join(VERIF, '.work', 'evidence-scratch')
         os.makedirs(evdir, exist_ok=True)
         evp = os.path.join(evdir, '%s.json' % prop)
